@@ -122,6 +122,12 @@ def run_item(item):
                 def pset_of(kk):
                     return CustomFunctionSet(fs, DataSampler({"k": torch.tensor(kk, dtype=torch.float32).reshape(-1, 1)}), lambda k, t: torch.sin(3 * k * t) + k)
                 forms.append(("functionset-sum", pset_of(ks[:1]) + pset_of(ks[1:])))
+                # a sum that was afterwards used as an operand of a LARGER sum still denotes its own functions
+                s_own = pset_of(ks[:1]) + pset_of(ks[1:])
+                _larger = s_own + pset_of([0.123])
+                forms.append(("functionset-sum-reused", s_own))
+            if F >= 3:
+                forms.append(("functionset-sum3", (pset_of(ks[:1]) + pset_of(ks[1:2])) + pset_of(ks[2:])))
             if F == 1:
                 k0 = float(ks[0])
                 forms += [("callable", lambda t, k0=k0: torch.sin(3 * k0 * t) + k0), ("tensor2d", vals[0].clone()),
